@@ -1,7 +1,7 @@
 \* design check (thorough): all reliance combinations x connect-version mode
 CONSTANTS
   RunModes = {0, 1}
-  CaseSets = {4, 5, 8}
+  CaseSets = {4, 5, 6}
   MaxSuites = 1
   SNames = {4}
   SModes = {0, 1}
